@@ -45,6 +45,7 @@ type tamperer struct {
 	broken   bool
 	skipInfo bool // skip the lists on which the next mutation is informational only
 	lazy     bool // inside a byte sweep: see unchanged
+	classes  map[string]int
 }
 
 func (t *tamperer) mkTarget(k lkind, o observer) *target {
@@ -105,6 +106,7 @@ func (t *tamperer) try(class, detail string, rec *consensusproto.RawRecordWithId
 		return
 	}
 	t.e.c.Distinct("distinct", "mut|"+class+"|"+t.lastKind)
+	t.classes[class]++
 	for i, tg := range t.targets {
 		if t.broken {
 			return
@@ -187,7 +189,12 @@ func (e *env) tamper(h *hist, sweep bool, ref [][]string) {
 	if n < 2 {
 		return
 	}
-	t := &tamperer{e: e, h: h, prefix: H[:n-1], last: H[n-1], lastKind: h.kinds[len(h.kinds)-1]}
+	t := &tamperer{e: e, h: h, prefix: H[:n-1], last: H[n-1], lastKind: h.kinds[len(h.kinds)-1], classes: map[string]int{}}
+	if sweep && h.depth <= 1 && h.index == 0 {
+		defer func() {
+			e.c.Sample(map[string]any{"tampered_last_record_of": h.String(), "record_kind": t.lastKind, "wrapped_payload_bytes": len(t.last.Payload), "mutations_per_class": t.classes})
+		}()
+	}
 	rr := &consensusproto.RawRecord{}
 	rec := &consensusproto.Record{}
 	if err := rr.UnmarshalVT(t.last.Payload); err != nil {
